@@ -132,7 +132,7 @@ Lemma step_passive : forall o s p, activelyP o = false -> novnf (slots s) ->
 Proof.
   intros o [[sl t] w] p Ha Hn. unfold slots in *. cbn [fst] in Hn.
   unfold step. destruct (unfetch_passive o (op_target p) sl t w Ha) as [t0 [-> _]].
-  destruct p as [k v|k v|k rep|k]; cbn [mstep fst].
+  destruct p as [k v|k v|k rep|k|k]; cbn [mstep fst].
   - rewrite mfind_mview. destruct (sfind k sl) as [x|]; cbn [option_map fst]; [auto|].
     destruct (t_add o _ t0 (bump w)) as [t1 w1]. cbn [fst].
     rewrite mview_sinsert. cbn. split; [reflexivity|]. apply novnf_sinsert; auto.
@@ -151,6 +151,14 @@ Proof.
     destruct (t_get_novnf _ _ _ _ _ Hx Hg) as [Hx1 _]. cbn in Hx1. subst x1.
     rewrite mview_sset. rewrite mset_same.
     + split; [reflexivity|]. apply novnf_sset; auto.
+    + rewrite mfind_mview. rewrite (sfind_key _ _ _ Hf), Hf. reflexivity.
+  - destruct (sfind k sl) as [x|] eqn:Hf; cbn [fst]; [|auto].
+    assert (Hx : ivnf x = false).
+    { unfold novnf in Hn. rewrite Forall_forall in Hn. apply Hn. eapply sfind_in; eauto. }
+    destruct (t_update o x t0 w) as [[t1 w1] x1] eqn:Hu. cbn [fst].
+    destruct (t_update_passive _ _ _ _ _ _ _ Ha Hu) as [_ [Hk [Hv Hvn]]].
+    rewrite mview_sset. unfold sval at 1. rewrite Hv, Hk. fold (sval x). rewrite mset_same.
+    + split; [reflexivity|]. apply novnf_sset; auto. now rewrite Hvn.
     + rewrite mfind_mview. rewrite (sfind_key _ _ _ Hf), Hf. reflexivity.
 Qed.
 
@@ -269,3 +277,18 @@ Lemma leak_witness :
   let d := history o_active d0 h_leak in
   map iid (fst d) = [2] /\ map fst (blobs (snd d)) = [2; 1].
 Proof. vm_compute. split; reflexivity. Qed.
+
+(* F4: actively persisted store: a key-only update of an out-of-node value keeps the committed value id in its update
+   entry; the rollback of a transaction that actively persisted something deletes every add/update entry's id *)
+Definition h_rollback_keyonly : list (list op * bool) :=
+  [([OAdd 1%Z 5; OAdd 2%Z 6], true); ([OUpdate 1%Z 7], true); ([OAdd 4%Z 9; OUpdKey 1%Z], false)].
+Lemma rollback_keyonly_witness :
+  view (history o_active d0 h_rollback_keyonly) = [(1%Z, None); (2%Z, Some 6)] /\
+  mrun [] (committed_ops h_rollback_keyonly) = [(1%Z, 7); (2%Z, 6)].
+Proof. vm_compute. split; reflexivity. Qed.
+
+(* a committed key-only update of an out-of-node value keeps the value (the guard `Value != nil` in manage) *)
+Definition h_keyonly_commit : list (list op * bool) :=
+  [([OAdd 1%Z 5], true); ([OUpdate 1%Z 7], true); ([OUpdKey 1%Z], true); ([OGet 1%Z; OUpdKey 1%Z], true)].
+Lemma keyonly_commit_ok : view (history o_active d0 h_keyonly_commit) = [(1%Z, Some 7)].
+Proof. vm_compute. reflexivity. Qed.
